@@ -144,6 +144,8 @@ def pOp : P Op := fun ts => match ts with
   | "massset" :: r => (do let i ← pNat; let l ← pCounted pMass; pure (Op.massesSet i l) : P Op) r
   | "pbcset" :: r => (do let i ← pNat; let l ← pCounted pBool; pure (Op.pbcSet i l) : P Op) r
   | "snatypes" :: r => (do let i ← pNat; pure (Op.sysNatypes i) : P Op) r
+  | "satypes" :: r => (do let i ← pNat; pure (Op.sysAtypes i) : P Op) r
+  | "scomp" :: r => (do let i ← pNat; pure (Op.composition i) : P Op) r
   | "spget" :: r => (do let i ← pNat; let k ← tok; let ix ← pOpt pIndex; pure (Op.sysPropGet i k ix) : P Op) r
   | "spgeta" :: r => (do let i ← pNat; let ix ← pIndex; pure (Op.sysPropGetAtoms i ix) : P Op) r
   | "spset" :: r => (do
@@ -195,6 +197,8 @@ def showOut : Out → String
   | .nat n => s!"ok n {n}"
   | .syms l => " ".intercalate (["ok", "y", toString l.length] ++ l.map showSym)
   | .masses l => " ".intercalate (["ok", "w", toString l.length] ++ l.map showMass)
+  | .nats l => " ".intercalate (["ok", "t", toString l.length] ++ l.map toString)
+  | .comp c => "ok c " ++ showSym c
 
 def pairsShared (s : State) : List (Nat × Arr) → List String
   | [] => []
